@@ -196,15 +196,16 @@ def gen_script(rng, n, deep=False):
     if deep:
         # long run / long stepping, then a long chain of back-steps, then look and continue
         out = []
-        if rng.random() < 0.8:
-            # a breakpoint late in the program: `run` has to execute whole loops before it stops there
-            out.append('b %d' % rng.choice([n - 1, n - 1, max(0, n - 2), max(0, n - 3), rng.randrange(n)]))
-        if rng.random() < 0.3:
-            out.append('b 0')
-        out += [rng.choice(['r', 'r', 'n'])] * rng.randint(1, 3)
-        if rng.random() < 0.4:
-            out += ['n'] * rng.randint(1, 90)
-        out += ['p'] * rng.choice([1, 5, 30, 63, 64, 65, 70, 100, 130, rng.randint(1, 160)])
+        nback = rng.choice([1, 5, 30, 63, 64, 65, 70, 100, 130, rng.randint(1, 160)])
+        if rng.random() < 0.6:
+            # a breakpoint on the tail behind the loop: ONE `run` executes the whole loop and stops there
+            out.append('b %d' % rng.choice([n - 1, n - 2, n - 2]))
+            if rng.random() < 0.3:
+                out.append('b 0')
+            out.append(rng.choice(['r', 'run']))
+        else:
+            out += ['n'] * rng.randint(1, 120)
+        out += ['p'] * nback
         out += ['s', 'n', 's']
         if rng.random() < 0.5:
             out += ['r', 's'] + ['p'] * rng.randint(1, 80) + ['s', 'n']
